@@ -186,7 +186,7 @@ def run(ctx):
     cases = []
     sizes = sorted(set(list(range(512, 16385, 64)) + [b for c in (2048, 3072) for b in range(c - 128, c + 129, 8)]))
     fam_orders = [list(p) for n in (1, 2, 3) for p in itertools.permutations(RSA_FAMILY, n)]
-    q = ctx.quick
+    q = False           # the whole grid in both tiers: a complete run takes seconds
     for i, b in enumerate(sizes):
         near = abs(b - 2048) <= 128 or abs(b - 3072) <= 128
         if q and not near and i % 8 != ctx.seed % 8:
